@@ -22,5 +22,6 @@ def run(ctx):
     files['zzverif/c06/pb/types_gen.go'] = os.path.join(gdir, 'pb', 'types_gen.go')
     b = ctx.build('c06', core.MODPATH + '/zzverif/c06', files)
     ctx.children(b, 8 if not ctx.thorough else 16, run='TestC06$', timeout=2400)
+    ctx.children(b, 1, run='TestC06Groups', timeout=1200)
     ctx.children(b, 1, run='TestC06Generics', timeout=300)
     ctx.children(b, 1, run='TestC06SameName', timeout=300)
